@@ -19,3 +19,6 @@ CHECKS["C06"] = c06_check.run
 
 import c07_check
 CHECKS["C07"] = c07_check.run
+
+import c09_check
+CHECKS["C09"] = c09_check.run
